@@ -22,25 +22,25 @@ var histOps = []histOp{
 	{"Search", opSearch}, {"SubList", opSubList}, {"Concat", opConcat}, {"MapFilter", opMapFilter}, {"PureCalls", opPureCalls},
 	{"ForEachVariants", opForEachVariants}, {"Set", opSet}, {"Unset", opUnset}, {"Merge", opMerge}, {"Pluck", opPluck},
 	{"KeysValues", opKeysValues}, {"ObjMap", opObjMap}, {"Clone", opClone}, {"SetTF", opSetTF}, {"UnsetTF", opUnsetTF},
-	{"GetTF", opGetTF}, {"Export", opExport}, {"MutateNative", opMutateNative}, {"Import", opImport},
+	{"GetTF", opGetTF}, {"Export", opExport}, {"MutateNative", opMutateNative}, {"Import", opImport}, {"Burst", opBurst},
 }
 
 // vocab: the smallest operation mix that drives each property (DESIGN §2 "Attribution").
 var vocab = map[string]map[string]int{
-	"C05": {"NewList": 6, "NewHomogeneous": 2, "NewListOf": 2, "NewObject": 2, "Add": 10, "Insert": 8, "Replace": 6, "Delete": 6,
+	"C05": {"Burst": 2, "NewList": 6, "NewHomogeneous": 2, "NewListOf": 2, "NewObject": 2, "Add": 10, "Insert": 8, "Replace": 6, "Delete": 6,
 		"Pop": 6, "Clear": 1, "Reverse": 3, "Sort": 2, "Get": 6, "TypeOf": 2, "Search": 4, "SubList": 5, "Concat": 5, "Set": 3,
 		"Import": 2, "Export": 1},
-	"C06": {"NewObject": 6, "NewList": 2, "Set": 12, "Unset": 6, "Clear": 1, "Merge": 5, "Pluck": 4, "KeysValues": 5, "Get": 6,
+	"C06": {"Burst": 2, "NewObject": 6, "NewList": 2, "Set": 12, "Unset": 6, "Clear": 1, "Merge": 5, "Pluck": 4, "KeysValues": 5, "Get": 6,
 		"TypeOf": 2, "Search": 4, "Export": 2, "Import": 2, "Add": 2},
-	"C08": {"NewList": 4, "NewObject": 4, "NewHomogeneous": 1, "Clone": 8, "Add": 5, "Insert": 3, "Replace": 4, "Delete": 3, "Pop": 3,
+	"C08": {"Burst": 2, "NewList": 4, "NewObject": 4, "NewHomogeneous": 1, "Clone": 8, "Add": 5, "Insert": 3, "Replace": 4, "Delete": 3, "Pop": 3,
 		"Clear": 1, "Reverse": 1, "Sort": 1, "Set": 6, "Unset": 3, "SetTF": 4, "UnsetTF": 3},
-	"C09": {"NewList": 4, "NewHomogeneous": 1, "NewObject": 3, "Add": 8, "Pop": 5, "Delete": 3, "Insert": 3, "Replace": 3, "Clear": 1,
+	"C09": {"Burst": 2, "NewList": 4, "NewHomogeneous": 1, "NewObject": 3, "Add": 8, "Pop": 5, "Delete": 3, "Insert": 3, "Replace": 3, "Clear": 1,
 		"Sort": 1, "Reverse": 2, "Set": 5, "Unset": 3, "SubList": 5, "Concat": 7, "MapFilter": 7, "ObjMap": 4, "Merge": 4, "Pluck": 3,
 		"KeysValues": 4, "Export": 5, "MutateNative": 4, "PureCalls": 3, "Search": 2},
-	"C11": {"NewList": 3, "NewObject": 3, "SetTF": 14, "UnsetTF": 7, "GetTF": 3, "Add": 3, "Set": 3, "Pop": 1, "Unset": 1},
-	"C13": {"NewList": 3, "NewObject": 3, "Import": 7, "Export": 8, "MutateNative": 8, "Add": 5, "Replace": 4, "Pop": 2, "Delete": 2,
+	"C11": {"Burst": 2, "NewList": 3, "NewObject": 3, "SetTF": 14, "UnsetTF": 7, "GetTF": 3, "Add": 3, "Set": 3, "Pop": 1, "Unset": 1},
+	"C13": {"Burst": 2, "NewList": 3, "NewObject": 3, "Import": 7, "Export": 8, "MutateNative": 8, "Add": 5, "Replace": 4, "Pop": 2, "Delete": 2,
 		"Set": 5, "Unset": 3, "Clear": 1, "Sort": 1, "Reverse": 1, "Insert": 2, "NewHomogeneous": 1},
-	"C19": {"NewDerived": 6, "NewList": 2, "NewObject": 2, "Add": 6, "Insert": 4, "Replace": 4, "Delete": 3, "Pop": 3, "Clear": 1,
+	"C19": {"Burst": 2, "NewDerived": 6, "NewList": 2, "NewObject": 2, "Add": 6, "Insert": 4, "Replace": 4, "Delete": 3, "Pop": 3, "Clear": 1,
 		"Sort": 1, "Reverse": 3, "Set": 6, "Unset": 3, "ForEachVariants": 6, "SetTF": 4, "UnsetTF": 3, "Get": 6, "GetTF": 4,
 		"MapFilter": 3, "KeysValues": 2, "Export": 4, "PureCalls": 1},
 }
